@@ -2,7 +2,16 @@
 """AST scan of /repo/shexer for places where a result could depend on something other than the
 arguments (property C19): Python set creation and iteration (order follows the per-process string
 hash seed), the random / uuid / time modules, hash(), id(), directory listings, argument-less
-.pop()/.popitem(), rdflib BNode() (random id).
+.pop()/.popitem(), rdflib BNode() (random id).  Set algebra counts as set creation: the difference /
+intersection / union of dictionary views (d.keys() - e.keys(), d.items() & ...) and of sets, and the set
+methods difference / union / intersection / symmetric_difference / copy, are set-valued, so iterating them
+is an iterate-set site.
+
+Besides the pattern sites, corpus/C19/sites.json lists REVIEWED FUNCTIONS ("reviewed_functions": file +
+qualified name): functions free of such patterns whose statement order nevertheless decides the insertion
+order of a dictionary the output is read from (dictionary merges).  Each yields a site of kind
+"reviewed-function" whose code is the SHA-256 of the function's normalised source (ast.unparse: comments and
+layout do not count), so that ANY edit of the function re-opens its review.
 
 Nothing is imported or executed.  A site is identified by (file, enclosing function, kind,
 normalised source of the node) -- not by line number, so unrelated edits do not move it.
@@ -12,6 +21,7 @@ usage: scan_oracle_sites.py [repo_root]            print the sites as JSON
                                                    dispositions already recorded
 """
 import ast
+import hashlib
 import json
 import os
 import sys
@@ -21,6 +31,10 @@ warnings.filterwarnings("ignore")
 
 HERE = os.path.dirname(os.path.abspath(__file__))
 SITES = os.path.join(HERE, "..", "corpus", "C19", "sites.json")
+
+SET_OPS = (ast.Sub, ast.BitAnd, ast.BitOr, ast.BitXor)
+SET_METHODS = {"difference", "union", "intersection", "symmetric_difference", "copy"}
+VIEW_METHODS = {"keys", "items"}
 
 NONDET_MODULES = {"random", "uuid", "secrets", "time", "datetime", "tempfile", "threading", "multiprocessing"}
 LISTING_CALLS = {("os", "listdir"), ("os", "walk"), ("os", "scandir"), ("glob", "glob"), ("glob", "iglob")}
@@ -35,9 +49,17 @@ def _src(node):
     return " ".join(s.split())[:160]
 
 
+def _is_dict_view(node):
+    return (isinstance(node, ast.Call) and isinstance(node.func, ast.Attribute) and node.func.attr in VIEW_METHODS
+            and not node.args and not node.keywords)
+
+
 def _is_set_expr(node):
     if isinstance(node, (ast.Set, ast.SetComp)):
         return True
+    if isinstance(node, ast.BinOp) and isinstance(node.op, SET_OPS) and (
+            _is_dict_view(node.left) or _is_dict_view(node.right) or _is_set_expr(node.left) or _is_set_expr(node.right)):
+        return True          # d.keys() - e.keys(), d.items() & e.items(), set(..) | x : a set whatever the other operand
     if isinstance(node, ast.Call) and isinstance(node.func, ast.Name) and node.func.id in ("set", "frozenset"):
         return True
     if isinstance(node, ast.IfExp):
@@ -51,6 +73,7 @@ class Ctx(object):
         self.set_attrs = set()         # attribute names bound to a set somewhere (x.<attr> = set() / alias of one)
         self.returning = set()         # names of functions / methods that return a set
         self.set_params = set()        # (function name, parameter name) receiving a set at some call site
+        self.reviewed = set()          # (file, qualified function name) pinned by the hash of their source
 
 
 class Scanner(ast.NodeVisitor):
@@ -76,6 +99,10 @@ class Scanner(ast.NodeVisitor):
     def visit_FunctionDef(self, node):
         self.stack.append(node.name)
         self.set_names.append(set())
+        if (self.rel, ".".join(self.stack)) in self.ctx.reviewed:
+            src = " ".join(ast.unparse(node).split())
+            self.sites.append({"file": self.rel, "function": ".".join(self.stack), "kind": "reviewed-function",
+                               "code": "sha256:" + hashlib.sha256(src.encode("utf-8")).hexdigest()})
         # which local names hold a set: parameters known to receive one, then assignments (to a fixed point)
         for a in node.args.args + node.args.kwonlyargs:
             if (node.name, a.arg) in self.ctx.set_params:
@@ -113,6 +140,12 @@ class Scanner(ast.NodeVisitor):
 
     def _is_set_valued(self, node):
         if _is_set_expr(node):
+            return True
+        if isinstance(node, ast.BinOp) and isinstance(node.op, SET_OPS) and (
+                self._is_set_valued(node.left) or self._is_set_valued(node.right)):
+            return True
+        if (isinstance(node, ast.Call) and isinstance(node.func, ast.Attribute) and node.func.attr in SET_METHODS
+                and (self._is_set_valued(node.func.value) or _is_dict_view(node.func.value))):
             return True
         if isinstance(node, ast.Name) and node.id in self.set_names[-1]:
             return True
@@ -196,6 +229,7 @@ def scan(repo):
             with open(p, encoding="utf-8") as fh:
                 trees.append((os.path.relpath(p, repo), ast.parse(fh.read(), filename=p)))
     ctx = Ctx()
+    ctx.reviewed = {(f["file"], f["function"]) for f in load_reviewed()}
     sites = []
     for _ in range(4):                     # facts flow between files: iterate to a fixed point
         before = (len(ctx.set_attrs), len(ctx.returning), len(ctx.set_params))
@@ -220,6 +254,13 @@ def load_recorded():
         return json.load(f)["sites"]
 
 
+def load_reviewed():
+    if not os.path.exists(SITES):
+        return []
+    with open(SITES) as f:
+        return json.load(f).get("reviewed_functions", [])
+
+
 def compare(repo):
     """-> (new sites, vanished sites, all current sites)"""
     cur, _ = scan(repo)
@@ -242,6 +283,7 @@ def main():
     if "--update" in sys.argv:
         cur, returning = scan(repo)
         old = {key(s): s for s in load_recorded()}
+        load_reviewed_before = load_reviewed()
         out = {}
         for s in cur:
             k = key(s)
@@ -252,8 +294,11 @@ def main():
         os.makedirs(os.path.dirname(SITES), exist_ok=True)
         with open(SITES, "w") as f:
             json.dump({"comment": "nondeterminism sites of /repo/shexer found by tools/scan_oracle_sites.py, each with "
-                                  "the reviewer's disposition; compared with a fresh scan on every C19 run",
-                       "functions_returning_sets": returning, "sites": list(out.values())}, f, indent=1)
+                                  "the reviewer's disposition; compared with a fresh scan on every C19 run; reviewed_functions: "
+                                  "pattern-free functions pinned by the SHA-256 of their normalised source (kind "
+                                  "reviewed-function)",
+                       "functions_returning_sets": returning, "reviewed_functions": load_reviewed_before,
+                       "sites": list(out.values())}, f, indent=1)
         print("%d sites (%d distinct) written" % (len(cur), len(out)))
         return 0
     new, gone, cur = compare(repo)
